@@ -8,6 +8,8 @@ from ..valgen import Gen, copy_value
 from ..condgen import CondGen
 from ..rulegen import RuleGen
 from ..ruleterms import RuleT, obs_rule_test, Tags
+from ..pathterms import PathT, Prim, ListT
+from ..terms import Leaf
 
 PROP = "C05"
 IMPORTS = "Py Lang Defs Cond Dsl Check DocSem PathSpec Path Cast RuleDefs RuleSpec Rule Inst Run RunRule"
@@ -49,10 +51,23 @@ def make_case(rt, doc, oracle_fn=default_oracle):
     return Case(descr, model, oracle, impl, outcome, nontrivial, key=(rt.descr(), repr(doc)[:60]))
 
 
+CORPUS = [
+    (RuleT(PathT([Prim("sizes"), ListT()]), Leaf("Value", "has_factor", [-2]), []), {"sizes": [8, "%c", 6]}),     # "%c" % -2: OverflowError
+    (RuleT(PathT([Prim("n")]), Leaf("Value", "factor_of", ["%c"]), []), {"n": -7}),
+    (RuleT(PathT([Prim("sizes"), ListT()]), Leaf("Value", "has_factor", [0]), []), {"sizes": [8, 0, "%z"]}),
+]
+
+
 def gen(seed, n, cast_p=0.0, path_args_p=0.0, oracle_fn=default_oracle):
     g = Gen(seed)
     rg = RuleGen(CondGen(g))
     cases = []
+    if cast_p == 0.0 and path_args_p == 0.0:
+        # regression corpus: a node on which the callable raises an error class other than the usual ones is a FAILURE of the rule
+        for rt0, doc0 in CORPUS:
+            c = make_case(rt0, copy_value(doc0), oracle_fn)
+            if c:
+                cases.append(c)
     for _ in range(n):
         doc = g.document(4, 4)
         if cast_p == 0.0 and g.r.random() < 0.2:
